@@ -34,7 +34,7 @@ STATELESS = {"rekey-to", "can-close-account", "can-close-asset", "missing-fee-ch
 TYPE_NUM = {"pay": 1, "keyreg": 2, "acfg": 3, "axfer": 4, "afrz": 5, "appl": 6}
 PROFILE = {"keys": ["Fee", "Addr", "Addr", "GroupIndex", "GroupSize"], "p_cf": 0.0, "max_subs": 1, "max_stmts": 3,
            "max_depth": 2, "gtxn": 0.5, "loops": False, "switch": False, "direct_only": True, "intc": 0.0,
-           "end_styles": ["ret1"], "feesink": 0.0}
+           "end_styles": ["ret1"], "feesink": 0.0, "hostile_endings": False}
 
 
 class Ctr(dict):
@@ -175,6 +175,29 @@ def gen_random_config(rng):
         elif w < 0.9:
             a["rel"][b["id"]] = rng.choice([1, 1, 2, 3, -1, -1, -2])
     return {"contracts": contracts, "txns": txns}
+
+
+def satisfiable(cfg):
+    """Is there ANY placement of the configured transactions (distinct positions 0..15) honouring every absolute index and
+    offset?  Exact (at most 16^3 assignments).  Configurations without one describe no group; verdicts on them are not judged."""
+    txns = cfg["txns"]
+    ids = [t["id"] for t in txns]
+    for combo in itertools.permutations(range(16), len(ids)):
+        pos = dict(zip(ids, combo))
+        ok = True
+        for t in txns:
+            if t["abs"] is not None and pos[t["id"]] != t["abs"]:
+                ok = False
+                break
+            for other, k in t["rel"].items():
+                if pos[other] != pos[t["id"]] + k:
+                    ok = False
+                    break
+            if not ok:
+                break
+        if ok:
+            return True
+    return False
 
 
 def positions(cfg, rng, limit=6):
@@ -408,6 +431,81 @@ def check_config(cfg, rng, ctr):
                                   "what": "%s reports TB although TA's contract asserts the safe value of that field for the member at %s, "
                                           "which is where the configuration puts TB" % (det, g["access"]),
                                   "config": {"txns": cfg["txns"]}})
+        # general precision oracle: a configured contract excludes the dangerous value of T at every accepting exit,
+        # reading T as itself (txn / gtxn <own absolute index>), or as the member at the configured absolute index /
+        # offset.  Decided by the abstract walk oracle on the (direct-check) contract.
+        from vt.ref import walks as W
+        wcache = {}
+
+        def no_dangerous_walk(cname, det, target):
+            key = (cname, det, target)
+            if key not in wcache:
+                P = wcache.get(("P", cname))
+                if P is None:
+                    P = W.Program(cfg["contracts"][cname][0])
+                    wcache[("P", cname)] = P
+                if P.is_recursive():
+                    wcache[key] = False
+                else:
+                    A_ = ("A", "ATTACKER")
+                    try:
+                        if det == "rekey-to":
+                            adm = P.admitted(W.Key("RekeyTo", target=target), A_)
+                        elif det == "can-close-account":
+                            adm = P.admitted(W.Key("CloseRemainderTo", target=target), A_)
+                        elif det == "can-close-asset":
+                            adm = P.admitted(W.Key("AssetCloseTo", target=target), A_)
+                        elif det == "missing-fee-check":
+                            consts = set()
+                            for ins in cfg["contracts"][cname][0]:
+                                if ins[0] in ("int", "pushint") and isinstance(ins[1], int):
+                                    consts.add(int(ins[1]))
+                            adm = set()
+                            for f in inputs.uint_reps(consts, extra=(272000, 272001, (1 << 64) - 1), limit=40):
+                                if f > 272000:
+                                    adm |= P.admitted(W.Key("Fee", target=target), f)
+                        else:
+                            adm = {0}
+                        # is there an accepting walk at all (for any value)?  a contract that never approves clears nothing useful
+                        wcache[key] = (len(adm) == 0) and bool(P.admitted(W.Key("GroupSize"), 16) or P.admitted(W.Key("GroupSize"), 1))
+                    except OverflowError:
+                        wcache[key] = False
+            return wcache[key]
+
+        if not cfg.get("guard") and not satisfiable(cfg):
+            ctr["unsatisfiable_configurations_not_judged"] += 1
+        elif not cfg.get("guard"):
+            ids = {t["id"]: t for t in cfg["txns"]}
+            for det in ("rekey-to", "can-close-account", "can-close-asset", "missing-fee-check"):
+                for t in cfg["txns"]:
+                    if not eligible(det, t):
+                        continue
+                    cleared_by = None
+                    for cname in (t["lsig"], t["app"]):
+                        if cname and no_dangerous_walk(cname, det, "self"):
+                            cleared_by = (cname, "txn")
+                        if cname and t["abs"] is not None and no_dangerous_walk(cname, det, ("abs", t["abs"])):
+                            cleared_by = (cname, "gtxn own index %d" % t["abs"])
+                    for o in cfg["txns"]:
+                        if o["id"] == t["id"]:
+                            continue
+                        for cname in (o["lsig"], o["app"]):
+                            if not cname:
+                                continue
+                            if t["abs"] is not None and no_dangerous_walk(cname, det, ("abs", t["abs"])):
+                                cleared_by = (cname, "absolute index %d" % t["abs"])
+                            # t.index = o.index + k when o lists t at offset k
+                            k = o["rel"].get(t["id"])
+                            if k is not None and no_dangerous_walk(cname, det, ("rel", k)):
+                                cleared_by = (cname, "offset %+d" % k)
+                    if cleared_by:
+                        ctr["cleared_by_statement_checks"] += 1
+                        ctr["cleared_by_walk_oracle"] += 1
+                        if t["id"] in reported[det]:
+                            viols.append({"kind": "cleared-by-statement-but-reported", "key": det,
+                                          "what": "%s reports %s although contract %s excludes the dangerous value on every accepting walk when it reads that transaction through %s" % (
+                                              det, t["id"], cleared_by[0], cleared_by[1]),
+                                          "config": {"txns": cfg["txns"]}})
         # degenerate: one transaction, one contract -> single-contract verdict
         if len(cfg["txns"]) == 1 and (cfg["txns"][0]["lsig"] or cfg["txns"][0]["app"]) and not (cfg["txns"][0]["lsig"] and cfg["txns"][0]["app"]):
             t = cfg["txns"][0]
